@@ -1,9 +1,11 @@
 #!/usr/bin/env python3
-"""Re-run every kept seeded change under /verif/seeded against its property's quick check; write seeded/RESULTS.md"""
+"""Re-run kept seeded changes under /verif/seeded against their property's quick check (all of them, or only the ones named on
+the command line) and write seeded/RESULTS.md from the results recorded in every meta.json"""
 import json, os, subprocess, sys
 ROOT = os.path.dirname(os.path.dirname(os.path.abspath(__file__)))
 sys.path.insert(0, os.path.join(ROOT, 'tools'))
 import seedeval
+only = set(sys.argv[1:])
 rows = []
 for d in sorted(os.listdir(os.path.join(ROOT, 'seeded'))):
     p = os.path.join(ROOT, 'seeded', d)
@@ -11,14 +13,17 @@ for d in sorted(os.listdir(os.path.join(ROOT, 'seeded'))):
         continue
     meta = json.load(open(os.path.join(p, 'meta.json')))
     pid = meta['breaks_property']
-    r = seedeval.run_check(os.path.join(p, 'patch.diff'), pid)
+    if not only or d in only or pid not in meta.get('check_results', {}):
+        r = seedeval.run_check(os.path.join(p, 'patch.diff'), pid)
+        meta['check_results'] = {pid: r}
+        json.dump(meta, open(os.path.join(p, 'meta.json'), 'w'), indent=1)
+        print(d, r['rc'], r['wall_s'], flush=True)
+    r = meta['check_results'][pid]
     vl = r['violation_line'] or ''
     kind = 'MISSED' if r['rc'] == 0 else ('failing input found' if 'no-failing-input-found' not in vl else 'broken obligation / correspondence, no failing input')
-    meta['check_results'] = {pid: r}
-    json.dump(meta, open(os.path.join(p, 'meta.json'), 'w'), indent=1)
     rows.append((d, pid, kind, r['wall_s'], meta.get('summary', '')[:110].replace('\n', ' ').replace('|', '/')))
-    print(d, kind, r['wall_s'], flush=True)
 with open(os.path.join(ROOT, 'seeded', 'RESULTS.md'), 'w') as fh:
     fh.write('# Seeded changes vs the checks (quick tier, VERIF_SEED=1)\n\n| change | property | result | wall s | what the change does |\n|---|---|---|---|---|\n')
     for r in rows:
         fh.write('| ' + ' | '.join(str(x) for x in r) + ' |\n')
+print(len(rows), 'rows;', sum(1 for r in rows if r[2] == 'failing input found'), 'with a failing input')
